@@ -124,11 +124,11 @@ fn check(st: &ChainSt, added: &[(String, Vec<u8>)]) -> (Option<(String, String)>
             return Some(("C16:valid-request-refused".into(), format!("depth {}: request with added headers {:?} was refused: {}", st.hop, added.iter().map(|(k, v)| format!("{}: {}", k, show(v))).collect::<Vec<_>>(), e)));
         }
         if b.err.is_some() || a.bytes != b.bytes {
-            return Some(("C16:head-schedule-dependent".into(), format!("head differs between buffer schedules ({:?})", b.err)));
+            return Some(("out-of-scope:C16:head-schedule-dependent".into(), format!("head differs between buffer schedules ({:?})", b.err)));
         }
         let h = match head::parse(&a.bytes) {
             Ok(h) => h,
-            Err(e) => return Some(("C16:head-malformed".into(), e)),
+            Err(e) => return Some(("out-of-scope:C16:head-malformed".into(), e)),
         };
         // the complete head must be exactly: request line, the added headers in order, derived Host /
         // framing header, then the originals that are not suppressed (full reference comparison of C02;
@@ -153,9 +153,10 @@ fn check(st: &ChainSt, added: &[(String, Vec<u8>)]) -> (Option<(String, String)>
                     None => "added-headers-order".to_string(),
                 }
             } else {
-                k.trim_start_matches("C02:").to_string()
+                // anything else about the head (originals, framing, Host, request line) is C02's / C13's
+                format!("out-of-scope:{}", k.trim_start_matches("C02:"))
             };
-            return Some((format!("C16:{}", class), format!("redirect depth {}: added {:?}: {} ; head: {:?}", st.hop, added.iter().map(|(k, v)| format!("{}: {}", k, show(v))).collect::<Vec<_>>(), w, show(&a.bytes))));
+            return Some((if class.starts_with("out-of-scope:") { format!("out-of-scope:C16:{}", class.trim_start_matches("out-of-scope:")) } else { format!("C16:{}", class) }, format!("redirect depth {}: added {:?}: {} ; head: {:?}", st.hop, added.iter().map(|(k, v)| format!("{}: {}", k, show(v))).collect::<Vec<_>>(), w, show(&a.bytes))));
         }
         None
     });
